@@ -121,6 +121,20 @@ fn predict_records<F: Float, L: Label + Default, D: Data<Elem = F>>(
     tree.predict(x)
 }
 
+fn predict_inplace_records<F: Float, L: Label + Default, D: Data<Elem = F>>(tree: &DecisionTree<F, L>, x: &ArrayBase<D, Ix2>, buf: &mut Array1<L>) {
+    use linfa::traits::PredictInplace;
+    tree.predict_inplace(x, buf)
+}
+
+/// `predict_inplace` into a caller's buffer that already holds other (valid) labels
+fn predict_inplace_any<F: Float, L: Label + Default>(tree: &DecisionTree<F, L>, b: &Backing<F>, mut buf: Array1<L>) -> Array1<L> {
+    match b.layout {
+        Layout::RowMajor | Layout::ColMajor => predict_inplace_records(tree, &b.buf, &mut buf),
+        _ => predict_inplace_records(tree, &b.view(), &mut buf),
+    }
+    buf
+}
+
 fn predict_any<F: Float, L: Label + Default>(tree: &DecisionTree<F, L>, b: &Backing<F>) -> Array1<L> {
     match b.layout {
         Layout::RowMajor | Layout::ColMajor => predict_records(tree, &b.buf),
@@ -210,6 +224,22 @@ fn run_typed<F: Float, L: Label + Default>(
     out.truncated = truncated;
     let pt: Array1<L> = obs.call("predict", || predict_any(&tree, &xb))?;
     out.pred_train = pt.iter().map(&id_of).collect();
+    // the in-place form into a used buffer: every entry pre-set to a label that differs from the prediction of its row
+    {
+        let other = |l: &L| -> L { table[((id_of(l).max(0) as usize) + 1) % table.len()].clone() };
+        let used: Array1<L> = pt.iter().map(&other).collect();
+        if let Some(pi) = obs.call("predict_inplace", || predict_inplace_any(&tree, &xb, used.clone())) {
+            let same = pi.len() == pt.len() && pi.iter().zip(pt.iter()).all(|(a, b)| a == b);
+            obs.ensure(same, "predict:inplace-into-used-buffer-differs", || {
+                format!(
+                    "predict_inplace on the training rows into a buffer holding {:?} left {:?}; predict returns {:?}",
+                    used.iter().map(&id_of).collect::<Vec<_>>(),
+                    pi.iter().map(&id_of).collect::<Vec<_>>(),
+                    pt.iter().map(&id_of).collect::<Vec<_>>()
+                )
+            });
+        }
+    }
     if !qs.is_empty() {
         let pq: Array1<L> = obs.call("predict", || predict_any(&tree, &qb))?;
         out.pred_query = pq.iter().map(&id_of).collect();
